@@ -633,6 +633,11 @@ def _stop_inclusive(ctx, run):
         run.touch(f)
         n = 0
         bad = []
+        parent = {}
+        for pi, pe_ in enumerate(f.exprs):
+            for c_ in pe_.get("c") or []:
+                if c_ is not None and c_ >= 0:
+                    parent.setdefault(c_, pi)
         for i, e in enumerate(f.exprs):
             if e["k"] != "bin" or e["op"] not in ("<", "<=", ">", ">=", "==", "!="):
                 continue
@@ -652,6 +657,20 @@ def _stop_inclusive(ctx, run):
             op = e["op"]
             if names[0] == "stop":
                 op = {"<": ">", "<=": ">=", ">": "<", ">=": "<=", "==": "==", "!=": "!="}[op]
+            # under an odd number of negations (`return !(here >= start && here < stop)`) the test reads the other way
+            j, neg, hops = i, False, 0
+            while j in parent and hops < 30:
+                j = parent[j]
+                hops += 1
+                pe = f.exprs[j]
+                if pe["k"] == "un" and pe["op"] == "!":
+                    neg = not neg
+                elif pe["k"] == "bin" and pe["op"] == "==" and any(ex.const(f, c) == 0 for c in pe["c"]):
+                    neg = not neg
+                elif pe["k"] not in ("cast", "paren", "bin", "un", "cond") or (pe["k"] == "bin" and pe["op"] not in ("&&", "||", "!=", "==")):
+                    break
+            if neg:
+                op = {"<": ">=", "<=": ">", ">": "<=", ">=": "<", "==": "!=", "!=": "=="}[op]
             n += 1
             if op != want:
                 bad.append((i, op))
